@@ -77,6 +77,10 @@ def run(ck):
         trans_ok = False
     ck.checker_cmds.append('coqc build/C06/SplitArith_gen.v')
 
+    # ---- C06b: which constructed trees the model holds (tree iterations, loop over n_trees) — scripted runs of the real loops vs Model/TreeIter.v ----
+    from harness import treeiter
+    treeiter.run(ck, xr)
+
     # ---- (a) the real _get_balanced_split on every n for several f ----
     fs = [0.0, 0.05, 0.1, 0.25, 0.125, 0.2, 0.3, 0.45, 0.5, 1 / 3, 0.07]
     nmax = min(ck.n(160, 1200), 1600)
